@@ -252,8 +252,9 @@ def _gen_ioapi(rng):
         k = rng.randint(3, 5)
         how = rng.choice(['irregular', 'unsorted', 'repeats', 'random'])
         if how == 'irregular':
+            k = min(k, nt - 1)      # k == nt would force the regular list 0..nt-1
             while True:
-                tl = sorted(rng.sample(range(nt), k if k <= nt else nt))
+                tl = sorted(rng.sample(range(nt), k))
                 if len(set(b - a for a, b in zip(tl, tl[1:]))) > 1:
                     break
         elif how == 'unsorted':
@@ -474,9 +475,19 @@ def _strform_as_case(case, obs):
     return dict(case, kws=[[case['dim'], {'s': list(case['sl'])}]])
 
 
-def _ioapi_aug(case, obs):
+def _ioapi_region(case):
+    """known finding (region 1): an IOAPI file sliced with >= 2 zipped lists AND any selector on TSTEP — the zipped data
+    variables make updatemeta miscount NVARS, so TFLAG is REBUILT uniformly from SDATE/STIME/TSTEP instead of keeping
+    the selected rows (wrong for irregular / unsorted / repeating lists and for reversed slices)"""
+    ls = [dn for dn, s in case['kws'] if 'l' in s]
+    return 1 if case['kind'].startswith('ioapi') and len(ls) > 1 and 'TSTEP' in [dn for dn, _ in case['kws']] else 0
+
+
+def _ioapi_aug(case, obs, with_tflag=True):
     """TFLAG joins the compared variables: input rows TFLAG[:, 0, :] as a (TSTEP, DATE-TIME) variable of the case, the
     output rows as the observed variable"""
+    if not with_tflag:
+        return case, obs
     if 'raises' in obs or obs.get('tflag') is None or 'tflag_in' not in obs:
         return case, obs
     nt = len(obs['tflag_in'])
@@ -516,7 +527,8 @@ def coq_term(case, obs):
         if case is None:
             return None
     if case['kind'].startswith('ioapi'):
-        case, obs = _ioapi_aug(case, obs)
+        # inside the known-defect region the rebuilt TFLAG is not modelled: F covers the data variables there
+        case, obs = _ioapi_aug(case, obs, with_tflag=(_ioapi_region(case) == 0))
         obs = _ioapi_obs(case, obs)
     names = [d[0] for d in case['dims']]
     nd = len(names)
@@ -672,16 +684,17 @@ def _check_ioapi(case, obs):
     """data part of the IOAPI wrapper: every data variable is the orthogonal / zipped selection (float32 cells hold
     exact integers); dimension lengths agree wherever the dimension still exists"""
     if 'raises' in obs:
-        return dict(s_ok=False, region=0, why='IOAPI sliceDimensions raised %s: %s' % (obs.get('raises'), obs.get('msg', '')[:100]))
+        return dict(s_ok=False, region=_ioapi_region(case), why='IOAPI sliceDimensions raised %s: %s' % (obs.get('raises'), obs.get('msg', '')[:100]))
     why = []
     if obs.get('tflag') is None:
         why.append('TFLAG has no VAR column')
     if not obs.get('tflag_cols_same', False):
         why.append('TFLAG columns differ between variables')
+    reg = _ioapi_region(case)
     case, obs = _ioapi_aug(case, obs)
     exp = _expected(case)
     if exp is None:
-        return dict(s_ok=False, region=0, why='generator produced a malformed IOAPI case')
+        return dict(s_ok=False, region=_ioapi_region(case), why='generator produced a malformed IOAPI case')
     if 'TFLAG' in exp['vars']:
         # getTimes() of the result = the selected instants of the input
         import datetime
@@ -712,7 +725,9 @@ def _check_ioapi(case, obs):
         why.append('TFLAG not compared')
     if obs.get('cls') != 'ioapi_base':
         why.append('result class %s' % obs.get('cls'))
-    return dict(s_ok=not why, region=0, why='; '.join(why)[:600])
+    if any(not w.startswith(('TFLAG', 'getTimes()')) for w in why):
+        reg = 0      # only the TFLAG / getTimes() deviation is a known finding
+    return dict(s_ok=not why, region=reg, why='; '.join(why)[:600])
 
 
 def _check_strform(case, obs):
